@@ -122,6 +122,10 @@ def retire (s : St) (e : Elem) : St :=
 def disconnect (s : St) : St :=
   { s with connected := false, disconnects := s.disconnects + 1, rSent := false, smEnabled := false }
 
+/-- `conn_disconnect` as an API call: it returns at once when the connection is already
+    disconnected (the application is told about a disconnect exactly once) -/
+def disconnectOnce (s : St) : St := if s.connected then disconnect s else s
+
 /-- the send half of `xmpp_run_once` for this connection; returns the bytes put on the wire -/
 def runOnce (s : St) (sched : List Accept) : St × Bytes :=
   if !s.connected then (s, [])
@@ -213,7 +217,7 @@ def step (s : St) : Op → St × Out
   | .run sched => let (s', w) := runOnce s sched; (s', .wire w)
   | .drop w => let (s', r) := dropElement s w; (s', .dropped r)
   | .setSm b => ({ s with smEnabled := b }, .none)
-  | .disc => (disconnect s, .none)
+  | .disc => (disconnectOnce s, .none)
 
 /-- bytes still to be written, in queue order -/
 def pending (q : List Elem) : Bytes := (q.map Elem.rest).flatten
